@@ -560,6 +560,12 @@ func c17Exec(line string) string {
 		return c17Conc(f[1], iters, seed)
 	case "stage":
 		return c17Stage(f[1])
+	case "tlconc":
+		if len(f) != 4 {
+			return "bad-case"
+		}
+		k, _ := strconv.Atoi(f[1])
+		return c17TlConc(k, f[2], f[3])
 	}
 	return "bad-case"
 }
@@ -980,6 +986,7 @@ func c17Gen(tier string, seed uint64, out *bufio.Writer) {
 		fmt.Fprintf(out, "conc %s %d %d\n", flatKinds[i%len(flatKinds)], 15+r.intn(25), r.next()%1000000)
 	}
 	fmt.Fprintf(out, "stage plain\nstage snapintx\nstage rootbucket\n")
+	c17GenTlConc(out, tier, r)
 	fmt.Fprintf(out, "conc rwsR %d %d\n", 20, r.next()%1000000)
 	if tier == "thorough" {
 		fmt.Fprintf(out, "conc rssRR %d %d\n", 20, r.next()%1000000)
